@@ -69,6 +69,11 @@ def run(ctx):
           "Order_": [("x", "bool")], "Order0": [("y", "bool")]}, "Trade"),
         ({"T": [("a", "A$"), ("b", "A"), ("c", "A$B")], "A": [("v", "uint8")], "A$": [("v", "uint8")], "A$B": [("v", "uint8")]}, "T"),
         ({"P": [("e", "Empty"), ("e2", "Empty[3]")], "Empty": []}, "P"),
+        # struct types whose names look like atomic types but are none (there are no aliases, other sizes or other letter cases)
+        ({"Transfer": [("amount", "int"), ("history", "int[]"), ("u", "uint"), ("b", "byte[2]"), ("q", "uint9")], "int": [("lo", "uint128"), ("hi", "int128")],
+          "uint": [("v", "bool")], "byte": [("v", "bytes1")], "uint9": [("v", "uint8")]}, "Transfer"),
+        ({"T": [("a", "Bool"), ("b", "bytes33"), ("c", "fixed"), ("d", "String[]"), ("e", "uint264")], "Bool": [("v", "bool")], "bytes33": [("v", "bytes32")],
+          "fixed": [("v", "int256")], "String": [("s", "string")], "uint264": [("hi", "uint8"), ("lo", "uint256")]}, "T"),
     ]
     for types, primary in shapes:
         for _ in range(3):
@@ -187,3 +192,27 @@ def run(ctx):
         if rb2.cls != "ok" or rb2.stdout.decode().strip() != "0x" + want_.hex():
             ctx.violation("large-input-takes-too-long-or-fails", dict(op="hdwallet hash typeddata --message-hash", array_elements=n_arr), "0x" + want_.hex() + " within 90 s", str(rb2)[:200])
 
+
+    # deeply nested VALUES: a reply chain through a recursive type and a many-dimensional array holding one cell. The work is
+    # linear in the size of the value (a few hundred bytes of JSON here), whatever its nesting depth
+    deep = []
+    for depth in (16, 32, 48) + ((58,) if thorough else ()):  # serde_json refuses documents nested deeper than 128 levels
+        types = {"Comment": [("id", "uint256"), ("text", "string"), ("replies", "Comment[]")]}
+        msg = {"id": depth, "text": "leaf", "replies": []}
+        for i in range(depth):
+            msg = {"id": i, "text": "c%d" % i, "replies": [msg]}
+        deep.append((types, "Comment", msg, "reply-chain/depth%d" % depth))
+    for dims in (12, 28, 48) + ((100,) if thorough else ()):
+        types = {"Grid": [("cells", "uint8" + "[]" * dims), ("fixed", "bool" + "[1]" * dims)]}
+        a, b = 7, True
+        for _ in range(dims):
+            a, b = [a], [b]
+        deep.append((types, "Grid", {"cells": a, "fixed": b}, "array-dimensions/%d" % dims))
+    dd = [tdgen.document(rng, t, pr, m) + (t, pr, m, c) for t, pr, m, c in deep]
+    res = ctx.cli([dict(args=["hash", "typeddata", "-"], stdin=d.encode(), timeout=60) for d, *_ in dd], timeout=60)
+    for (d, alltypes, dv, t, pr, m, c), r in zip(dd, res):
+        ctx.count("deep-value/" + c.split("/")[0])
+        ctx.distinct(d)
+        want = "0x" + pyref.eip712_digest(alltypes, pr, dv, m)[0].hex()
+        if r.cls != "ok" or r.stdout.decode().strip() != want:
+            ctx.violation("deeply-nested-value-takes-too-long-or-fails", dict(op="hdwallet hash typeddata", cls=c, document=short(d, 300)), want + " within 60 s", str(r)[:200])
